@@ -284,8 +284,40 @@ def history(ctx, rng):
     run_case(ctx, ["random history"], scen, cause="history")
 
 
+def marathon(ctx, rng):
+    """ONE latched object asked 66000 more times: nothing may reach the port and every answer is the
+    failure value, on the 65536th blocked request as on the first."""
+    world = ebb3mon.World(board_kwargs={"version": "3.0.2"})
+    world.attach()
+    ebb3mon.call_step(world, {"m": "record_error", "a": ["first error"]})
+    n = ctx.budget(66_500, 140_000)
+    names = [("command", ["SM,10,0,0"], False), ("query", ["QS"], None), ("pen_lower", [100], None),
+             ("query_steps", [], None), ("var_read", [3], None), ("xy_move", [1, 2, 30], None)]
+    for i in range(n):
+        name, args, fail = names[i % len(names)]
+        mark = world.log.mark()
+        top, _ = ebb3mon.call_step(world, {"m": name, "a": args})
+        wrote = [e for e in world.log.since(mark) if e["kind"] == "write"]
+        res = None if top is None else top.get("result")
+        bad = top is None or "raised" in top or wrote or world.obj.__dict__.get("err") != "first error" or \
+            (name == "command" and res is not False) or (name != "command" and res not in (None, False, (None, None)))
+        if bad:
+            ctx.violation("latched object did not stay silent / failing on a long run", {
+                "blocked_request_number": i + 1, "method": name, "returned": repr(res),
+                "wrote": [e["data"].decode("latin-1") for e in wrote], "err": world.obj.__dict__.get("err"),
+                "raised": repr(top.get("raised")) if top and "raised" in top else None})
+            break
+        if i % 5000 == 4999:
+            world.log.events.clear()
+            world.mon.done = []
+            world.mon.online = []
+    ctx.case(["one latched object, tens of thousands of blocked requests"], ("marathon", n))
+
+
 def run(ctx):
     rng = ctx.rng
+    marathon(ctx, rng)
+    ctx.need("one latched object, tens of thousands of blocked requests", 1)
     ctx.extra["registry"] = [ebb3mon.registry_report()]
     quick = ctx.tier == "quick"
     methods = list(FOLLOWERS)
